@@ -251,6 +251,13 @@ impl SignatureContext<'_> {
                 None
             });
 
+            // every header named in `X-Amz-SignedHeaders` has to be a part of the request
+            for name in &presigned_url.signed_headers {
+                if headers.as_ref().iter().all(|&(n, _)| n != *name) {
+                    return Err(s3_error!(SignatureDoesNotMatch, "a signed header is not in the request"));
+                }
+            }
+
             let method = &self.req_method;
             let uri_path = &self.decoded_uri_path;
 
@@ -334,6 +341,13 @@ impl SignatureContext<'_> {
                 }
                 None
             });
+
+            // every header named in `SignedHeaders` has to be a part of the request
+            for name in &authorization.signed_headers {
+                if headers.as_ref().iter().all(|&(n, _)| n != *name) {
+                    return Err(s3_error!(SignatureDoesNotMatch, "a signed header is not in the request"));
+                }
+            }
 
             let canonical_request = if is_stream {
                 let payload = sig_v4::Payload::MultipleChunks;
